@@ -6,6 +6,12 @@
        [atomic_operations_linearize] - the premise is what the obligations on the regenerated lock
        table (Obligations/C13.v: every map access under the scope's lock, one critical section per
        scope and operation) establish for the Go code, outside the logic;
+   (2') one reader-writer lock, every operation one critical section (reads under the read lock and
+       pure, writes under the write lock): then EVERY interleaving of the operations' individual
+       steps - acquire, each micro-step of a write, the moment of a read, release - yields per-thread
+       histories that are linearizable [one_section_per_operation_makes_every_schedule_linearizable]
+       (Conc/LockReduction.v); this is the step from what the lock table says about env/*.go to (2),
+       and the reason the schedule exploration of ./check C13 may interleave at lock acquisitions only;
    (3) a copy taken atomically is a snapshot: it equals the scope's content at one point of the
        sequential order [copy_is_a_snapshot].
    What is checked rather than proved: that the Go methods are the model's steps when run under
@@ -14,6 +20,7 @@
    (race detector stress); absence of deadlock (the scheduler sees every acquisition). *)
 From Coq Require Import String List Bool Arith.
 From Anko Require Import Base.Assoc Env.EnvModel Env.EnvCases Conc.Lin Conc.EnvConc Conc.LockTable.
+From Anko Require Conc.LockReduction.
 Import ListNotations.
 
 Theorem linearizable_iff_sequential_order : forall h0 ts fin,
@@ -49,7 +56,47 @@ Theorem lock_table_condition : forall l, locks_ok l = true ->
   forall a, In a l -> a_lock a <> 0 /\ (a_write a = true -> a_lock a = 2).
 Proof. exact locks_ok_spec. Qed.
 
+(* coarse-grained locking reduces every fine-grained schedule to one operation at a time *)
+Theorem one_section_per_operation_makes_every_schedule_linearizable :
+  forall (St Op Out : Type) (step : St -> Op -> St * Out) (is_write : Op -> bool) (micro : Op -> list (St -> St)),
+  (forall st o, is_write o = false -> fst (step st o) = st) ->
+  (forall st o, is_write o = true -> LockReduction.run_micro (micro o) st = fst (step st o)) ->
+  forall (out_eqb : Out -> Out -> bool), (forall y, out_eqb y y = true) ->
+  forall st ts s' (final : St -> bool),
+  LockReduction.frun step is_write micro (LockReduction.start st ts) s' -> LockReduction.finished s' ->
+  final (LockReduction.sigma s') = true ->
+  Lin step out_eqb final st (map LockReduction.hist (LockReduction.ths s')).
+Proof.
+  intros St Op Out step is_write micro Hr Hm out_eqb Hrefl st ts s' final.
+  apply (LockReduction.every_schedule_is_linearizable step is_write micro Hr Hm out_eqb Hrefl).
+Qed.
+
+(* not vacuous: a counter with a two-step increment and a read; the reader gets in between two increments *)
+Definition ctr_step (st : nat) (o : bool) : nat * nat := if o then (S (S st), st) else (st, st).
+Example a_fine_grained_run_exists :
+  let micro := fun o : bool => if o then [S; S] else [] in
+  exists s', LockReduction.frun ctr_step (fun o => o) micro (LockReduction.start 0 [[true; true]; [false]]) s'
+    /\ LockReduction.finished s' /\ LockReduction.sigma s' = 4
+    /\ map LockReduction.hist (LockReduction.ths s') = [[(true, 0); (true, 2)]; [(false, 2)]].
+Proof.
+  intro micro. eexists. split.
+  - eapply LockReduction.run_cons; [eapply (LockReduction.acq_w ctr_step (fun o => o) micro _ 0); [reflexivity | reflexivity | repeat constructor]|]. cbn.
+    eapply LockReduction.run_cons; [eapply (LockReduction.step_w ctr_step (fun o => o) micro _ 0); reflexivity|]. cbn.
+    eapply LockReduction.run_cons; [eapply (LockReduction.step_w ctr_step (fun o => o) micro _ 0); reflexivity|]. cbn.
+    eapply LockReduction.run_cons; [eapply (LockReduction.rel_w ctr_step (fun o => o) micro _ 0); reflexivity|]. cbn.
+    eapply LockReduction.run_cons; [eapply (LockReduction.acq_r ctr_step (fun o => o) micro _ 1); [reflexivity | reflexivity | repeat constructor]|]. cbn.
+    eapply LockReduction.run_cons; [eapply (LockReduction.read_r ctr_step (fun o => o) micro _ 1); reflexivity|]. cbn.
+    eapply LockReduction.run_cons; [eapply (LockReduction.rel_r ctr_step (fun o => o) micro _ 1); reflexivity|]. cbn.
+    eapply LockReduction.run_cons; [eapply (LockReduction.acq_w ctr_step (fun o => o) micro _ 0); [reflexivity | reflexivity | repeat constructor]|]. cbn.
+    eapply LockReduction.run_cons; [eapply (LockReduction.step_w ctr_step (fun o => o) micro _ 0); reflexivity|]. cbn.
+    eapply LockReduction.run_cons; [eapply (LockReduction.step_w ctr_step (fun o => o) micro _ 0); reflexivity|]. cbn.
+    eapply LockReduction.run_cons; [eapply (LockReduction.rel_w ctr_step (fun o => o) micro _ 0); reflexivity|]. cbn.
+    apply LockReduction.run_refl.
+  - cbn. repeat split; repeat constructor.
+Qed.
+
 Print Assumptions linearizable_iff_sequential_order.
 Print Assumptions atomic_operations_linearize.
 Print Assumptions copy_is_a_snapshot.
 Print Assumptions lock_table_condition.
+Print Assumptions one_section_per_operation_makes_every_schedule_linearizable.
